@@ -2,7 +2,8 @@
    Only the property theorems; each is closed by [exact] of a lemma from Proofs/.
 
    Model:  Model/Msgpack.v (fastmsgpack writers on a fixed buffer), Model/Unescape.v (stringunescape),
-           Model/Serializer.v (NewEventSerializer, encodeRecord, the rewriters, VerifyConfig).
+           Model/Serializer.v (NewEventSerializer, SerializeRecord with maxEncodedLength, encodeRecord, the
+           rewriters, VerifyConfig).
    Spec:   Spec/MsgpackSpec.v (independent decoder), Spec/SerializerSpec.v (event_tree, unescape_ref; and the
            append-style encoder [encode_spec] that links the two and is not trusted). *)
 From SV Require Import Model.Common Model.Msgpack Model.Unescape Model.Serializer
@@ -18,11 +19,13 @@ Theorem C10_verify_config_chains_ok :
 Proof. exact verified_chain. Qed.
 Print Assumptions C10_verify_config_chains_ok.
 
-(* The headline.  For every schema (any number of fields below 65535, on either side of the fixmap/map16
-   boundary), every configuration whose rewriter chains are valid (in particular every one accepted by VerifyConfig), every record (any bytes, any lengths, on either side of
-   16 / 256 / 65536), every buffer size B <= 2^32 the event fits in and whatever earlier records left in that
-   buffer: SerializeRecord does not panic, emits a
-   non-empty stream, and the independent decoder reads it back as exactly
+(* The headline (since fix 413c995 without any "the event fits the buffer" hypothesis).  For every schema (any number
+   of fields below 65535, on either side of the fixmap/map16 boundary), every configuration whose rewriter chains are
+   valid (in particular every one accepted by VerifyConfig), every record (any bytes, any lengths, on either side of
+   16 / 256 / 65536) whose strings MessagePack can express (visible and environment keys and values shorter than
+   2^32 bytes), EVERY length B of the preallocated buffer - smaller or larger than the event - and whatever earlier
+   records left in that buffer: SerializeRecord does not panic, does not drop the record (never the empty stream),
+   and the independent decoder reads what it emits back as exactly
        [ EventTime ; { visible fields in schema order ..., "environment": { every environment field } } ]
    with nothing left over - visible = non-empty, not environment, not hidden; rewritten fields hold the documented
    result of their chain (inline prefix, unescaped value). *)
@@ -32,60 +35,113 @@ Theorem C10_decode_serialized :
   (length schema <= length (r_fields rec))%nat ->
   N.of_nat (length schema) < 65535 ->
   N.of_nat (length (c_env cfg)) < 65536 ->
-  N.of_nat B <= 4294967296 ->
+  strings_small schema cfg rec ->
   new_serializer schema cfg B = Ok ser ->
-  length buffer = B ->
-  (length (encode_spec schema cfg rec) < B)%nat ->
   exists stream,
     serialize_record_from ser rec buffer = Ok stream /\ stream <> [] /\
     decode_all stream = Some (event_tree schema cfg rec, []).
 Proof. exact decode_serialized_lemma. Qed.
 Print Assumptions C10_decode_serialized.
 
-(* 1. The fixed-buffer model (positions, reserved map-length slot, masks, pre-serialized keys, reserve-max-then-
-   back-patch string headers, window passed to the rewriters) returns exactly the append-style encoding whenever
-   that is shorter than the buffer: no panic, no truncation, every reserved slot patched. *)
+(* 0. The key lemma of the fix.  maxEncodedLength (1+10+3+12+3, plus len(key)+5+MaxFieldLength-or-len(value) per
+   visible field, plus len(key)+5+len(value) per environment field) never panics and is an upper bound of the length
+   of the event, for every schema, every configuration with valid chains and every record (no size limit): every
+   MessagePack header the encoder writes takes at most 5 bytes, the two map headers at most 3, and a rewriter chain
+   writes at most what its MaxFieldLength reports (C10_rewrite_within_reserved).  Hence the buffer SerializeRecord
+   chooses - the preallocated one if maxLength < len(buffer), else a one-off one of maxLength+1 bytes - is strictly
+   longer than the event, whatever the preallocated buffer is. *)
+Theorem C10_max_length_bounds_event :
+  forall schema cfg rec B ser,
+  chains_ok schema cfg ->
+  (length schema <= length (r_fields rec))%nat ->
+  new_serializer schema cfg B = Ok ser ->
+  exists m, max_encoded_length ser rec = Ok m /\
+            (length (encode_spec schema cfg rec) <= m)%nat /\
+            forall buffer, (length (encode_spec schema cfg rec) < length (choose_buffer buffer m))%nat.
+Proof. exact max_length_bounds_event_lemma. Qed.
+Print Assumptions C10_max_length_bounds_event.
+
+(* 1. encodeRecord on a fixed buffer (positions, reserved map-length slot, masks, pre-serialized keys, reserve-max-
+   then-back-patch string headers, window passed to the rewriters) returns exactly the append-style encoding whenever
+   that is shorter than the buffer it is given: no panic, no truncation, every reserved slot patched. *)
+Theorem C10_encode_record_spec :
+  forall schema cfg rec B ser buffer,
+  chains_ok schema cfg ->
+  (length schema <= length (r_fields rec))%nat ->
+  new_serializer schema cfg B = Ok ser ->
+  (length (encode_spec schema cfg rec) < length buffer)%nat ->
+  serialize_on ser rec buffer = Ok (encode_spec schema cfg rec).
+Proof. exact serialize_on_spec. Qed.
+Print Assumptions C10_encode_record_spec.
+
+(* ... and SerializeRecord, which chooses the buffer by 0., returns the append-style encoding for EVERY record and
+   EVERY size of the preallocated buffer (no size hypothesis of any kind: lengths beyond 2^32 only make the event
+   undecodable, they do not make the serializer fail). *)
 Theorem C10_encode_buf_spec :
   forall schema cfg rec B ser,
   chains_ok schema cfg ->
   (length schema <= length (r_fields rec))%nat ->
   new_serializer schema cfg B = Ok ser ->
-  (length (encode_spec schema cfg rec) < B)%nat ->
   serialize_record ser rec = Ok (encode_spec schema cfg rec).
 Proof. exact encode_buf_spec_lemma. Qed.
 Print Assumptions C10_encode_buf_spec.
 
-(* 1'. For EVERY buffer size and EVERY previous contents of the buffer (no "it fits" hypothesis): SerializeRecord is
-   total - it returns a stream or panics, the unescape loop never runs out of fuel -, it panics only when the event
-   is at least as long as the buffer, and a stream it returns is either empty (position == len(buffer): the record
-   is dropped) or the complete event.  A truncated or otherwise malformed event is never emitted. *)
+(* 1'. For EVERY size and EVERY previous contents of the preallocated buffer: SerializeRecord is total and never
+   fails - no panic, the unescape loop never runs out of fuel -, and the stream it returns is the complete event,
+   never the empty stream (a dropped record), never a truncated or otherwise malformed event. *)
 Theorem C10_never_emits_garbage :
   forall schema cfg rec B ser buffer,
   chains_ok schema cfg ->
   (length schema <= length (r_fields rec))%nat ->
   new_serializer schema cfg B = Ok ser ->
-  length buffer = B ->
   match serialize_record_from ser rec buffer with
-  | Ok stream => stream = [] \/ stream = encode_spec schema cfg rec
-  | Panic _ => (B <= length (encode_spec schema cfg rec))%nat
+  | Ok stream => stream = encode_spec schema cfg rec /\ stream <> []
+  | Panic _ => False
   | Err _ => False
   end.
 Proof. exact never_garbage_lemma. Qed.
 Print Assumptions C10_never_emits_garbage.
 
-(* 1''. The serializer reuses one buffer for all records; what it emits does not depend on what earlier records
-   left there (the model run by the correspondence check starts from a zeroed buffer). *)
+(* ... defence in depth: encodeRecord itself, on ANY buffer it might be given (i.e. even if maxEncodedLength were too
+   small), returns a stream or panics, panics only when the event is at least as long as that buffer, and what it
+   returns is the empty stream (position == len(buffer)) or the complete event - never a truncated one. *)
+Theorem C10_encode_record_never_emits_garbage :
+  forall schema cfg rec B ser buffer,
+  chains_ok schema cfg ->
+  (length schema <= length (r_fields rec))%nat ->
+  new_serializer schema cfg B = Ok ser ->
+  match serialize_on ser rec buffer with
+  | Ok stream => stream = [] \/ stream = encode_spec schema cfg rec
+  | Panic _ => (length buffer <= length (encode_spec schema cfg rec))%nat
+  | Err _ => False
+  end.
+Proof. exact encode_record_never_garbage_lemma. Qed.
+Print Assumptions C10_encode_record_never_emits_garbage.
+
+(* 1''. The serializer reuses one preallocated buffer for all records; what it emits depends neither on what earlier
+   records left there nor on the length of that buffer (the model run by the correspondence check starts from a
+   zeroed buffer). *)
 Theorem C10_buffer_contents_irrelevant :
+  forall schema cfg rec B ser buffer1 buffer2,
+  chains_ok schema cfg ->
+  (length schema <= length (r_fields rec))%nat ->
+  new_serializer schema cfg B = Ok ser ->
+  serialize_record_from ser rec buffer1 = serialize_record_from ser rec buffer2.
+Proof. exact buffer_contents_irrelevant_lemma. Qed.
+Print Assumptions C10_buffer_contents_irrelevant.
+
+(* ... and for encodeRecord alone: two buffers of the same length yield the same non-empty streams. *)
+Theorem C10_encode_record_contents_irrelevant :
   forall schema cfg rec B ser buffer1 buffer2 stream,
   chains_ok schema cfg ->
   (length schema <= length (r_fields rec))%nat ->
   new_serializer schema cfg B = Ok ser ->
-  length buffer1 = B -> length buffer2 = B ->
+  length buffer1 = length buffer2 ->
   stream <> [] ->
-  serialize_record_from ser rec buffer1 = Ok stream ->
-  serialize_record_from ser rec buffer2 = Ok stream.
-Proof. exact buffer_contents_irrelevant_lemma. Qed.
-Print Assumptions C10_buffer_contents_irrelevant.
+  serialize_on ser rec buffer1 = Ok stream ->
+  serialize_on ser rec buffer2 = Ok stream.
+Proof. exact encode_record_contents_irrelevant_lemma. Qed.
+Print Assumptions C10_encode_record_contents_irrelevant.
 
 (* 2. The append-style encoding decodes to the expected event, for all schemas, configurations and records whose
    strings MessagePack can express (shorter than 2^32 bytes; map counts fit 16 bits). *)
@@ -98,7 +154,7 @@ Theorem C10_decode_encode :
 Proof. exact decode_encode_lemma. Qed.
 Print Assumptions C10_decode_encode.
 
-(* the side condition of 2 follows from the size of the event *)
+(* the side condition of 2 and of the headline follows from the size of the event *)
 Theorem C10_small_event_small_strings :
   forall schema cfg rec,
   N.of_nat (length (encode_spec schema cfg rec)) < 4294967296 -> strings_small schema cfg rec.
@@ -113,18 +169,18 @@ Theorem C10_verified_config_constructs :
 Proof. exact new_serializer_ok. Qed.
 Print Assumptions C10_verified_config_constructs.
 
-(* ... so the headline needs nothing but VerifyConfig: the serializer exists, and every record whose event fits its
-   buffer is emitted as an event that decodes to exactly the record's visible fields. *)
+(* ... so the headline needs nothing but VerifyConfig: the serializer exists for every size of the preallocated
+   buffer, and EVERY record (with strings MessagePack can express) is emitted as an event that decodes to exactly the
+   record's visible fields. *)
 Theorem C10_accepted_config_serializes :
   forall schema cfg B,
   verify_config schema cfg = true ->
   N.of_nat (length schema) < 65535 ->
   N.of_nat (length (c_env cfg)) < 65536 ->
-  N.of_nat B <= 4294967296 ->
   exists ser, new_serializer schema cfg B = Ok ser /\
     forall rec buffer,
-      (length schema <= length (r_fields rec))%nat -> length buffer = B ->
-      (length (encode_spec schema cfg rec) < B)%nat ->
+      (length schema <= length (r_fields rec))%nat ->
+      strings_small schema cfg rec ->
       exists stream,
         serialize_record_from ser rec buffer = Ok stream /\ stream <> [] /\
         decode_all stream = Some (event_tree schema cfg rec, []).
@@ -254,3 +310,17 @@ Theorem C10_example_sixteen_entries :
   decode_all (encode_spec ex15_schema ex15_cfg ex15_rec) = Some (event_tree ex15_schema ex15_cfg ex15_rec, []).
 Proof. exact example15_lemma. Qed.
 Print Assumptions C10_example_sixteen_entries.
+
+(* A third test on literals: the one-off buffer of fix 413c995 is exercised.  The record of C10_example through a
+   serializer whose preallocated buffer has 16 bytes (InputLogMaxRecordBytes = 8): maxEncodedLength is 95 >= 16, the
+   event has 76 bytes; encodeRecord on the preallocated buffer panics (what SerializeRecord did before the fix),
+   SerializeRecord emits the complete event, which decodes to the record. *)
+Theorem C10_example_oversize :
+  exists ser, new_serializer ex_schema ex_cfg 16 = Ok ser /\
+    max_encoded_length ser ex_rec = Ok 95%nat /\
+    length (encode_spec ex_schema ex_cfg ex_rec) = 76%nat /\
+    (exists site, serialize_on ser ex_rec (repeat 0 16) = Panic site) /\
+    serialize_record ser ex_rec = Ok (encode_spec ex_schema ex_cfg ex_rec) /\
+    decode_all (encode_spec ex_schema ex_cfg ex_rec) = Some (event_tree ex_schema ex_cfg ex_rec, []).
+Proof. exact example_oversize_lemma. Qed.
+Print Assumptions C10_example_oversize.
